@@ -168,6 +168,11 @@ impl SharedMmap {
         // Bounds check before raw copy to maintain memory safety
         debug_assert!(offset <= self.storage.len());
         debug_assert!(self.storage.len() - offset >= data.len());
+        #[cfg(walrus_verif)]
+        if crate::wal::verif_hooks::io_event(crate::wal::verif_hooks::IO_STORAGE_WRITE) {
+            // fail mode: the write is dropped (the FD backend ignores `pwrite` errors as well)
+            return;
+        }
 
         self.storage.write(offset, data);
 
